@@ -40,7 +40,7 @@ def env_for_repo():
 
 
 def run_cases(cases, lit="exact", want_text=False, timeout=120, jobs=None, disable_opt=False,
-              script="worker.py", extra=None):
+              script="worker.py", extra=None, _retry=False):
     """Compile all cases in parallel worker subprocesses; returns list of per-case results in
     input order."""
     jobs = jobs or NPROC
@@ -66,19 +66,29 @@ def run_cases(cases, lit="exact", want_text=False, timeout=120, jobs=None, disab
             procs.append((p, outp, ch))
         byid = {}
         for p, outp, ch in procs:
+            killed = False
             try:
                 so, se = p.communicate(timeout=timeout * len(ch) + 60)
             except subprocess.TimeoutExpired:
                 p.kill()
+                killed = True
                 so, se = p.communicate()
             if os.path.exists(outp):
                 with open(outp, "rb") as f:
                     for r in pickle.load(f):
                         byid[r["id"]] = r
+            lost = [c for c in ch if c["id"] not in byid]
+            if lost and not _retry:
+                # the worker died (crash of a compiled kernel, kill by the chunk's time limit, out of memory): its unfinished
+                # cases are run again one per fresh worker, so that only the case that really cannot be run is reported
+                for c in lost:
+                    r1 = run_cases([c], lit=lit, want_text=want_text, timeout=timeout, jobs=1, disable_opt=disable_opt,
+                                   script=script, extra=extra, _retry=True)[0]
+                    byid[c["id"]] = r1
             for c in ch:
                 if c["id"] not in byid:
-                    byid[c["id"]] = {"id": c["id"], "code": c["code"], "status": "harness_error",
-                                     "error": "worker died: " + (se or "")[-400:], "kernels": []}
+                    byid[c["id"]] = {"id": c["id"], "code": c["code"], "status": "timeout" if (killed and _retry) else "harness_error",
+                                     "error": ("time limit exceeded" if killed else "worker died: ") + (se or "")[-400:], "kernels": []}
         return [byid[c["id"]] for c in cases]
     finally:
         shutil.rmtree(tmp, ignore_errors=True)
